@@ -793,6 +793,68 @@ theorem neg_matches (s : Bool × Bool) (d : Nat) (hd : d ∈ [0, 1, 2, 3]) (x : 
     obtain ⟨rfl, rfl⟩ := h'
     rfl
 
+/-! ## How a block is opened: an explicit `False` is not "unset"; nothing is inherited from the enclosing block -/
+
+/-- Obligation (tie G): the defaults in the signature of `operator_overloading` are the documented ones. -/
+theorem oo_defaults : ooDefaultsKnown = true ∧ ooDefaults = (false, true) := by decide
+
+/-- **A given option is taken as given** - `type_promotion=False` (and `constant_promotion=False`) included; only an
+    omitted option takes the default. -/
+theorem explicit_option_kept (b b' : Bool) :
+    (OOCall.settings ooDefaults ⟨some b, some b'⟩) = (b, b') ∧
+    (OOCall.settings ooDefaults ⟨some b, none⟩) = (b, true) ∧
+    (OOCall.settings ooDefaults ⟨none, some b'⟩) = (false, b') ∧
+    (OOCall.settings ooDefaults ⟨none, none⟩) = (false, true) := by
+  simp [OOCall.settings, oo_defaults.2]
+
+/-- **The settings inside a block are those of ITS call, whatever block encloses it**: in particular an inner
+    `type_promotion=False` (explicit or by default) inside an outer `type_promotion=True` switches promotion off. -/
+theorem inner_call_not_inherited (cur : Option (Bool × Bool)) (c : OOCall) (body : List ScopedC) :
+    Scoped.probes cur ((ScopedC.block c (.probe :: body)).toScoped ooDefaults)
+      = some (c.settings ooDefaults) ::
+          probesList (some (c.settings ooDefaults)) (ScopedC.listToScoped ooDefaults body) := by
+  simp [ScopedC.toScoped, ScopedC.listToScoped, Scoped.probes, probesList]
+
+/-- ... so inside an inner block opened with promotion off - explicitly or by omission - within ANY enclosing block,
+    Vars of different element types and a Python float meeting an integer Var are TypeError (operands as in
+    `no_promotion_strict`: here the two probes the scoped histories make). -/
+theorem inner_false_is_strict (outer : Bool × Bool) :
+    ∀ c ∈ [OOCall.mk (some false) (some true), ⟨some false, none⟩, ⟨none, some true⟩, ⟨none, none⟩, ⟨some false, some false⟩],
+      Scoped.probes none ((ScopedC.block ⟨some outer.1, some outer.2⟩ [.block c [.probe]]).toScoped ooDefaults)
+          = [some (false, (c.settings ooDefaults).2)] ∧
+        isErr (dispatch info (some (c.settings ooDefaults)) .add (.var 3) (.var 9)) .typeError = true ∧
+        isErr (dispatch info (some (c.settings ooDefaults)) .add (.var 2) .pyFloat) .typeError = true := by
+  have h : ∀ c ∈ [OOCall.mk (some false) (some true), ⟨some false, none⟩, ⟨none, some true⟩, ⟨none, none⟩, ⟨some false, some false⟩],
+      (c.settings ooDefaults).1 = false ∧
+      isErr (dispatch info (some (c.settings ooDefaults)) .add (.var 3) (.var 9)) .typeError = true ∧
+      isErr (dispatch info (some (c.settings ooDefaults)) .add (.var 2) .pyFloat) .typeError = true := by decide +kernel
+  intro c hc
+  obtain ⟨h1, h2, h3⟩ := h c hc
+  refine ⟨?_, h2, h3⟩
+  simp only [ScopedC.toScoped, ScopedC.listToScoped, Scoped.probes, probesList, List.append_nil]
+  rw [← h1]
+
+/-! ## Python floats are judged by type, not by value -/
+
+/-- Obligation (tie G, numpy executed on this run): for whole-number (`2.0`, `-3.0`, `0.0`, `-0.0`, `1.0`, `2**53`),
+    huge, tiny and non-finite Python floats alike, `np.result_type(v)` and `np.result_type(dtype, v)` are what they are
+    for the `2.5` the promotion tables are made with, and every one of them is a constant for `isinstance`. The
+    operand kind `pyFloat` of the model therefore stands for EVERY Python float. -/
+theorem float_judged_by_type :
+    ∀ f ∈ floatSamples, f.2.2.1 = true ∧ f.2.2.2.1 = info.rt1 13 ∧
+      f.2.2.2.2 = (List.range 12).map (fun d => info.rt2 d 13) := by decide +kernel
+
+/-- non-vacuity: whole-number samples are among them -/
+example : ∃ f ∈ floatSamples, f.1 = "2.0" ∧ f.2.1 = true := by decide +kernel
+example : ∃ f ∈ floatSamples, f.1 = "-3.0" ∧ f.2.1 = true := by decide +kernel
+
+/-- **With promotion off a Python float next to an integer Var is TypeError whatever its value** (`2.0`, `-3.0`, `0.0`
+    like `1.5`): every integer dtype, either side, all five arithmetic operators, both constant-promotion settings. -/
+theorem float_constant_strict :
+    ∀ cp ∈ [true, false], ∀ op ∈ binOps, ∀ d ∈ [0, 1, 2, 3, 4, 5, 6, 7],
+      isErr (dispatch info (some (false, cp)) op (.var d) .pyFloat) .typeError = true ∧
+      isErr (dispatch info (some (false, cp)) op .pyFloat (.var d)) .typeError = true := by decide +kernel
+
 /-! ## The wiring: Python's operators reach the dispatcher methods the theorems are about -/
 
 open Generated.VarDunders in
